@@ -976,6 +976,7 @@ func Run(p Plan, res *l2.Result) {
 			e.trig.arm("headers", p.KTh)
 		case StCFCkpt, StCFTip:
 			e.trig.arm("cfheaders", p.KTh)
+		case StStarted:
 		default:
 			e.hook.arm(p.Point(), p.KTh)
 		}
@@ -1012,7 +1013,19 @@ func Run(p Plan, res *l2.Result) {
 		}
 	}
 
-	if p.MidSync() {
+	if p.State == StStarted {
+		// Either right after Start returned, or right after the first peer's
+		// handshake (the filter-header goroutine starts then), plus 0-3 ms.
+		if p.KTh%2 == 0 {
+			select {
+			case <-e.peers[0].Ready:
+			case <-time.After(5 * time.Second):
+			}
+		}
+		time.Sleep(time.Duration(w.Rng.Intn(3000)) * time.Microsecond)
+		reached = true
+		e.note("just started")
+	} else if p.MidSync() {
 		if p.Point() != "" {
 			reached = waitTrigger(e.hook.parked, "parked at "+p.Point())
 			parkedPoint = reached
@@ -1270,6 +1283,22 @@ func (e *env) setupPostSync() (reached, parked bool) {
 			return true, true
 		case <-time.After(TriggerWait):
 			e.note("pause point %s not reached by the reorganisation", p.Point())
+			e.res.Count("trigger_missed/"+p.State, 1)
+			return false, false
+		}
+
+	case ptPrefix + PtCFWait:
+		// The filter-header goroutine sleeps at the tip. One new block wakes
+		// it; having committed that block's filter header it goes back to
+		// sleep, and is parked just before it does.
+		e.hook.arm(p.Point(), 1)
+		nb := e.ext[:1]
+		e.setTip(nb[0])
+		e.announce("headers", nb...)
+		select {
+		case <-e.hook.parked:
+			return true, true
+		case <-time.After(TriggerWait):
 			e.res.Count("trigger_missed/"+p.State, 1)
 			return false, false
 		}
